@@ -2,11 +2,18 @@ import Cactus.Lemmas.Final
 import Cactus.Lemmas.Basic
 import Cactus.Lemmas.Table
 /-!
-# C08 — adoption bookkeeping is exact and symmetric (first layer: the two API calls)
+# C08 — adoption bookkeeping is exact and symmetric
 
 Each `adopt` adds one owner→target record visible from both ends, each `unadopt` removes at most
-one and is a no-op when none exists.  The invariant over whole histories (symmetry, no record
-names a dead object) is `InvB` in `Cactus.Lemmas.Inv`.
+one and is a no-op when none exists.  What is proved here:
+* one-step lemmas about the two API calls: `C08_adopt_records`, `C08_adopt_self_records`,
+  `C08_adopt_counts`, `C08_unadopt_records`, `C08_unadopt_counts`;
+* whole histories, no hypothesis on the history, every state: `C08_bookkeeping` (tables well formed,
+  records name live objects only, both ends agree — the invariant `InvB`) and
+  `C08_decision_from_records`;
+* example: parallel adoptions, both kinds of self-adoption, a redundant `unadopt` and the
+  destruction of an object with records; the theorems instantiated.
+Not proved: hashbrown itself (a table is an association list in the model).
 -/
 namespace Cactus
 open State
@@ -93,5 +100,55 @@ theorem C08_decision_from_records {s : State} (h : Reachable s) (he : s.err = no
     (cycleRefs s x).cmap.get k = sumOver (cycleRefs s x).visited (fun n => s.F n k) :=
   let hc := (reachable_core h he).1
   cmap_get_eq s x hc.1 hc.2.1 hx k
+
+/-! ## Non-vacuity: parallel adoptions, both kinds of self-adoption, a redundant `unadopt`, and the
+destruction of an object that has records (no contract is assumed by C08, so the history uses the
+bare `adopt`/`unadopt` calls) -/
+
+def recordsHistory : List (Op × List Nat) :=
+  [(.act .new, []), (.act .new, []), (.act .new, []),       -- objects 0, 1, 2
+   (.act (.adopt 0 1), []), (.act (.adopt 0 1), []),
+   (.act (.adopt 0 1), []),                                 -- 0 adopts 1 three times
+   (.act (.adopt 1 2), []),                                 -- 1 adopts 2
+   (.act (.adopt 2 2), []),                                 -- 2 adopts itself through the same handle
+   (.act (.clone 0), []), (.act (.adopt 0 3), []),          -- 0 adopts itself through a clone
+   (.act (.unadopt 0 1), []),                               -- one of the three records removed
+   (.act (.unadopt 2 0), []),                               -- no such record: no-op
+   (.act (.drop 2), [])]                                    -- last handle to 2: its records vanish
+
+/-- the tables before the final `drop` (Forward/Backward/Loopback entries with multiplicities) … -/
+example : (run (recordsHistory.take 12)).heap.map (·.links) =
+    [some [(⟨1, .fwd⟩, 2), (⟨0, .fwd⟩, 1), (⟨0, .bwd⟩, 1)],
+     some [(⟨0, .bwd⟩, 2), (⟨2, .fwd⟩, 1)],
+     some [(⟨1, .bwd⟩, 1), (⟨2, .loop⟩, 1)]] := by decide +kernel
+
+/-- … and after it: object 2 is gone and so is every record naming it -/
+example : (run recordsHistory).err = none ∧ (run recordsHistory).roots = [0, 1, 0]
+    ∧ (run recordsHistory).heap.map (·.links) =
+      [some [(⟨1, .fwd⟩, 2), (⟨0, .fwd⟩, 1), (⟨0, .bwd⟩, 1)], some [(⟨0, .bwd⟩, 2)], none] := by
+  decide +kernel
+
+/-- `C08_bookkeeping` instantiated at that state: object 1's table is well formed and names live
+objects only (the record of the destroyed object 2 has been purged), and the adoption `0 → 1` is
+visible from both ends with the same multiplicity -/
+example : Table.WF [(⟨0, .bwd⟩, 2)]
+    ∧ (∀ e ∈ ([(⟨0, .bwd⟩, 2)] : Table), e.1.kind ≠ .loop → (run recordsHistory).isLive e.1.ptr = true)
+    ∧ (run recordsHistory).F 0 1 = (run recordsHistory).B 1 0 := by
+  have h := C08_bookkeeping (run_reachable recordsHistory) (by decide +kernel)
+  have h1 := h.1 1 [(⟨0, .bwd⟩, 2)] (by decide +kernel)
+  exact ⟨h1.1, fun e he => (h1.2 e he).2, h.2 0 1 (by decide +kernel) (by decide +kernel)⟩
+
+example : (run recordsHistory).F 0 1 = 2 ∧ (run recordsHistory).B 1 0 = 2
+    ∧ (run recordsHistory).F 0 0 = 1 ∧ (run recordsHistory).B 0 0 = 1
+    ∧ (run recordsHistory).F 1 2 = 0 := by decide +kernel
+
+/-- `C08_decision_from_records` there: the count the trace from 0 attributes to object 1 is the sum
+of the recorded adoptions of 1 by the visited objects `[1, 0]`, i.e. `0 + 2` -/
+example : (cycleRefs (run recordsHistory) 0).cmap.get 1
+    = sumOver (cycleRefs (run recordsHistory) 0).visited (fun n => (run recordsHistory).F n 1) :=
+  C08_decision_from_records (run_reachable recordsHistory) (by decide +kernel) (by decide +kernel) 1
+
+example : (cycleRefs (run recordsHistory) 0).visited = [1, 0]
+    ∧ (cycleRefs (run recordsHistory) 0).cmap = [(1, 2), (0, 1)] := by decide +kernel
 
 end Cactus
